@@ -70,6 +70,7 @@ def exec_case(ctx, spec):
         classes.add("construction-raises:" + type(e).__name__)
         return finish(None)
     opt = b.opt
+    start_truth = {"knobs": OF.knob_vector(b).copy()}
     try:
         if spec.get("inactive_at_construction_vary") or spec.get("inactive_at_construction_targets"):
             classes.add("constructed-inactive-then-enabled")
@@ -101,6 +102,7 @@ def exec_case(ctx, spec):
         if "clear_log" in spec["prologue"]:
             classes.add("prologue:clear_log")
             opt.clear_log()
+            start_truth["knobs"] = OF.knob_vector(b).copy()
     except Exception as e:
         classes.add("prologue-raises:" + type(e).__name__)
         return finish(None)
@@ -110,6 +112,9 @@ def exec_case(ctx, spec):
         classes.add("solve(rcond / sing_val_cutoff)")
     if spec.get("check_limits") is False:
         classes.add("check_limits=False")
+    # what iteration 0 of the log must hold, from the harness' own record: the knob values in the container when row 0
+    # was written (construction, or the clear_log() of the prologue - nothing moves the knobs between that and here)
+    row0_truth = start_truth["knobs"]
     row0 = {"knobs": [float(v) for v in opt._log["knobs"][0]], "vary_active": opt._log["vary_active"][0],
             "target_active": opt._log["target_active"][0]}
     n_rows_before = len(opt._log["penalty"])
@@ -142,6 +147,10 @@ def exec_case(ctx, spec):
     if np.any(np.abs(knobs - want) > tol):
         return finish(Failure("C09:knobs-not-restored-to-iteration-0",
                               dict(where, iteration_0=row0["knobs"], raised=repr(exc)[:200])))
+    if np.any(np.abs(knobs - row0_truth) > OF.ulp_tol(row0_truth, spec["vweights"])):
+        return finish(Failure("C09:knobs-not-restored-to-iteration-0:log-row-0-is-not-the-recorded-start",
+                              dict(where, iteration_0_in_log=row0["knobs"], knobs_when_row_0_was_written=[float(v) for v in row0_truth],
+                                   raised=repr(exc)[:200])))
     va = "".join("y" if v.active else "n" for v in opt.vary)
     ta = "".join("y" if t.active else "n" for t in opt.targets)
     if va != row0["vary_active"] or ta != row0["target_active"]:
